@@ -3,6 +3,7 @@ package rules
 import (
 	"fmt"
 	"go/types"
+	"strings"
 
 	"golang.org/x/tools/go/ssa"
 
@@ -13,10 +14,25 @@ import (
 
 func (c *c08) charset(spec c08Msg, b *c08Built) {
 	name := c08NTLM + "." + spec.fn
-	if b == nil {
-		return // R1.layout already reported
+	nName := 0
+	for _, d := range spec.descs {
+		if d.param >= 0 {
+			nName += 2
+		}
 	}
-	c.guard("R3.charset-flag", name, c.pos(b.fn.Pos()), func() { c.charset1(spec, b, name) })
+	expect := map[string]int{"R3.charset-flag": 1, "R3.charset-name": nName}
+	if b == nil {
+		// R1.layout already reported; if it could not be decided, neither can this
+		if c.builderND[spec.fn] {
+			c.entity(expect, func() {
+				c.notDecided("R3.charset-flag", name+": character-set flag", "-", "the builder's layout was not read off or is already reported (see R1.layout / R1.header-size)")
+			})
+		}
+		return
+	}
+	c.entity(expect, func() {
+		c.guard("R3.charset-flag", name, c.pos(b.fn.Pos()), func() { c.charset1(spec, b, name) })
+	})
 }
 
 func (c *c08) charset1(spec c08Msg, b *c08Built, name string) {
@@ -47,14 +63,14 @@ func (c *c08) charset1(spec c08Msg, b *c08Built, name string) {
 		for _, p := range fn.Params {
 			if bt, ok := p.Type().Underlying().(*types.Basic); ok && bt.Kind() == types.Bool {
 				if bp != nil {
-					r.Undecided("R3.charset-flag", name+": character-set test", c.pos(fn.Pos()), "more than one bool parameter; cannot tell which selects the character set")
+					c.notDecided("R3.charset-flag", name+": character-set test", c.pos(fn.Pos()), "more than one bool parameter; cannot tell which selects the character set")
 					return
 				}
 				bp = p
 			}
 		}
 		if bp == nil {
-			r.Undecided("R3.charset-flag", name+": character-set test", c.pos(fn.Pos()), "no bool parameter selects the character set")
+			c.notDecided("R3.charset-flag", name+": character-set test", c.pos(fn.Pos()), "no bool parameter selects the character set")
 			return
 		}
 		test = func(cond ssa.Value, fr *codec.Frame) (bool, bool) {
@@ -62,20 +78,41 @@ func (c *c08) charset1(spec c08Msg, b *c08Built, name string) {
 			return f == nil && v == ssa.Value(bp), true
 		}
 	} else {
-		test = func(cond ssa.Value, fr *codec.Frame) (bool, bool) {
+		var testD func(cond ssa.Value, fr *codec.Frame, depth int) (bool, bool)
+		testD = func(cond ssa.Value, fr *codec.Frame, depth int) (bool, bool) {
 			v, f := codec.Resolve(cond, fr)
+			// the test moved into a predicate: wantsUnicode(challenge), challenge.unicode()
+			if call, h := c08StaticCall(v); call != nil && h != nil && h.Blocks != nil && c.P.InModule(h) && depth < 2 && h.Signature.Results().Len() == 1 {
+				var ret *ssa.Return
+				for _, hb := range h.Blocks {
+					if r, isRet := hb.Instrs[len(hb.Instrs)-1].(*ssa.Return); isRet {
+						if ret != nil {
+							return false, false
+						}
+						ret = r
+					}
+				}
+				if ret == nil {
+					return false, false
+				}
+				return testD(ret.Results[0], codec.ChildFrame(call, h, f), depth+1)
+			}
 			x, set, ok := c08MaskTest(v, uni)
 			if !ok {
 				return false, false
 			}
 			xv, xf := codec.Resolve(c08Strip(x), f)
 			base, fld, ok := c08FieldLoad(xv)
-			if !ok || xf != nil || fld.Name() != "NegotiateFlags" || len(fn.Params) == 0 || base != ssa.Value(fn.Params[0]) {
+			if !ok || fld.Name() != "NegotiateFlags" || len(fn.Params) == 0 {
 				return false, false
 			}
-			flagField, flagBase = fld, base
+			if rb, rf := codec.Resolve(base, xf); rf != nil || rb != ssa.Value(fn.Params[0]) {
+				return false, false
+			}
+			flagField, flagBase = fld, ssa.Value(fn.Params[0])
 			return true, set
 		}
+		test = func(cond ssa.Value, fr *codec.Frame) (bool, bool) { return testD(cond, fr, 0) }
 	}
 	viewT := c08NewBranchView(fn, func(cond ssa.Value) (bool, bool) { m, s := test(cond, nil); return m, s })
 	viewF := c08NewBranchView(fn, func(cond ssa.Value) (bool, bool) { m, s := test(cond, nil); return m, !s })
@@ -85,7 +122,12 @@ func (c *c08) charset1(spec c08Msg, b *c08Built, name string) {
 	helperTests := 0
 	var emit []func()
 	toUpper := func(f *ssa.Function) bool { return f != nil && f.String() == "strings.ToUpper" }
+	// notFollowed marks a "bad" that is an origin the rule does not follow (as
+	// opposed to a producer observed to be the wrong one)
+	const notFollowed = "\x00"
+	otherParam := false // set by fromParam: the source IS another parameter of the builder
 	fromParam := func(v ssa.Value, fr *codec.Frame, want *ssa.Parameter) bool {
+		otherParam = false
 		for d := 0; d < 8; d++ {
 			v, fr = codec.Resolve(v, fr)
 			if fr == nil && v == ssa.Value(want) {
@@ -95,6 +137,9 @@ func (c *c08) charset1(spec c08Msg, b *c08Built, name string) {
 			if call != nil && toUpper(f) {
 				v = call.Common().Args[0]
 				continue
+			}
+			if p, isP := v.(*ssa.Parameter); isP && fr == nil && p.Parent() == fn {
+				otherParam = true
 			}
 			return false
 		}
@@ -113,12 +158,15 @@ func (c *c08) charset1(spec c08Msg, b *c08Built, name string) {
 				return "is produced by utf16.EncodeUTF16LE although the OEM character set is selected", 1
 			}
 			if !fromParam(call.Common().Args[0], fr, want) {
+				if !otherParam {
+					return notFollowed + "is EncodeUTF16LE of a value whose origin is not followed to parameter " + want.Name(), 1
+				}
 				return "is EncodeUTF16LE of something other than parameter " + want.Name(), 1
 			}
 			return "", 1
 		case call != nil && f != nil && f.Blocks != nil && c.P.InModule(f) && depth < 2 && f.Signature.Results().Len() == 1:
 			// a shared encoding helper: its returns, on the paths the selection leaves alive
-			fr2 := &codec.Frame{Call: call, Callee: f, Parent: fr}
+			fr2 := codec.ChildFrame(call, f, fr)
 			view := c08NewBranchView(f, func(cond ssa.Value) (bool, bool) { m, s := test(cond, fr2); return m, s == uniSel })
 			helperTests += view.tests
 			total := 0
@@ -130,6 +178,9 @@ func (c *c08) charset1(spec c08Msg, b *c08Built, name string) {
 				for _, l2 := range view.leaves(ret.Results[0]) {
 					bad, n := producer(l2, fr2, uniSel, want, depth+1)
 					if bad != "" {
+						if strings.HasPrefix(bad, notFollowed) {
+							return bad, n
+						}
 						return bad + " (in helper " + f.Name() + ")", n
 					}
 					total += n
@@ -142,17 +193,28 @@ func (c *c08) charset1(spec c08Msg, b *c08Built, name string) {
 				return "is produced by a []byte(string) conversion although Unicode is selected (must be utf16.EncodeUTF16LE)", 1
 			}
 			if !fromParam(cv.X, fr, want) {
+				if !otherParam {
+					return notFollowed + "is []byte of a value whose origin is not followed to parameter " + want.Name(), 1
+				}
 				return "is []byte of something other than parameter " + want.Name(), 1
 			}
 			return "", 1
 		}
-		return "is produced by " + l.String() + ", neither utf16.EncodeUTF16LE nor a []byte(string) conversion", 1
+		return notFollowed + "is produced by " + l.String() + ", which is neither utf16.EncodeUTF16LE nor a []byte(string) conversion and is not followed", 1
 	}
 	for _, d := range spec.descs {
 		if d.param < 0 {
 			continue
 		}
 		P := b.payload[d.name]
+		if P == nil && d.param < len(fn.Params) && c.builderND[spec.fn] {
+			for _, label := range []string{"Unicode", "OEM"} {
+				construct := fmt.Sprintf("%s: %s payload (%s)", name, d.name, label)
+				emit = append(emit, func() {
+					c.notDecided("R3.charset-name", construct, c.pos(fn.Pos()), "the payload of the descriptor was not identified (see R2.desc-len)")
+				})
+			}
+		}
 		if P == nil || d.param >= len(fn.Params) {
 			continue
 		}
@@ -175,6 +237,8 @@ func (c *c08) charset1(spec c08Msg, b *c08Built, name string) {
 			br := br
 			emit = append(emit, func() {
 				switch {
+				case strings.HasPrefix(bad, notFollowed):
+					c.notDecided("R3.charset-name", construct, c.pos(fn.Pos()), "on the "+br.label+" paths the payload "+strings.TrimPrefix(bad, notFollowed))
 				case bad != "":
 					r.Fail("R3.charset-name", construct, c.pos(fn.Pos()), "on the "+br.label+" paths the payload "+bad)
 				case n == 0:
@@ -195,14 +259,37 @@ func (c *c08) charset1(spec c08Msg, b *c08Built, name string) {
 		construct := name + ": character-set flag"
 		switch {
 		case viewT.tests+helperTests == 0:
+			// the selection may be made in code that was not followed: the selecting
+			// value (useUnicode, resp. the challenge or its flags) is handed to an
+			// in-module function or closure
+			var sel ssa.Value
+			if len(fn.Params) > 0 {
+				sel = fn.Params[0]
+			}
 			if negotiate {
+				for _, p := range fn.Params {
+					if bt, ok := p.Type().Underlying().(*types.Basic); ok && bt.Kind() == types.Bool {
+						sel = p
+					}
+				}
+			}
+			esc := ""
+			if sel != nil {
+				esc = c.flowsOut(sel, c08FlowOpts{lengths: true, ignore: func(f *ssa.Function) bool {
+					return f.Name() == "calculateNTLMv1Response" || f.Name() == "calculateNTLMv2Response"
+				}})
+			}
+			switch {
+			case esc != "":
+				c.notDecided("R3.charset-flag", construct, c.pos(fn.Pos()), "no branch of the builder itself tests the character-set selector, but "+esc+", which may select it")
+			case negotiate:
 				r.Fail("R3.charset-flag", construct, c.pos(fn.Pos()), "no branch tests the useUnicode parameter")
-			} else {
+			default:
 				r.Fail("R3.charset-flag", construct, c.pos(fn.Pos()), "no branch tests challenge.NegotiateFlags & NTLMSSP_NEGOTIATE_UNICODE: the character set does not follow the negotiated flag")
 			}
 		case negotiate:
 			if b.flagsVal == nil {
-				r.Undecided("R3.charset-flag", construct, c.pos(fn.Pos()), "NegotiateFlags value not located")
+				c.notDecided("R3.charset-flag", construct, c.pos(fn.Pos()), "the NegotiateFlags value written was not located")
 				break
 			}
 			evT := &c08BitsEval{root: viewT, inModule: c.P.InModule, test: func(cond ssa.Value, fr *codec.Frame) (bool, bool) { m, s := test(cond, fr); return m, s }}
@@ -216,17 +303,26 @@ func (c *c08) charset1(spec c08Msg, b *c08Built, name string) {
 			}
 			u, o := uni.Uint64(), oem.Uint64()
 			switch {
-			case ot&u == 0 || zt&o == 0:
+			case zt&u != 0 || ot&o != 0:
+				// observed: UNICODE known clear, or OEM known set, on the Unicode paths
 				r.Fail("R3.charset-flag", construct, c.pos(fn.Pos()), "when useUnicode is true the emitted NegotiateFlags do not have exactly NTLMSSP_NEGOTIATE_UNICODE set (and NTLMSSP_NEGOTIATE_OEM clear)")
-			case of&o == 0 || zf&u == 0:
+			case zf&o != 0 || of&u != 0:
 				r.Fail("R3.charset-flag", construct, c.pos(fn.Pos()), "when useUnicode is false the emitted NegotiateFlags do not have exactly NTLMSSP_NEGOTIATE_OEM set (and NTLMSSP_NEGOTIATE_UNICODE clear)")
+			case ot&u == 0 || zt&o == 0 || of&o == 0 || zf&u == 0:
+				c.notDecided("R3.charset-flag", construct, c.pos(fn.Pos()), "the UNICODE / OEM bits of the emitted NegotiateFlags are not determined on the paths the selector decides (the flags are assembled in a form the bit evaluation does not follow)")
 			default:
 				r.OK("R3.charset-flag", construct, c.pos(fn.Pos()), fmt.Sprintf("useUnicode ⇒ UNICODE=1, OEM=0; ¬useUnicode ⇒ UNICODE=0, OEM=1 (%d branches decided)", viewT.tests+helperTests))
 			}
 		default:
 			// the flags echoed are the field that was tested
+			if b.flagsVal == nil {
+				c.notDecided("R3.charset-flag", construct, c.pos(fn.Pos()), "the NegotiateFlags value written was not located")
+				break
+			}
 			base, fld, ok := c08FieldLoad(b.flagsVal)
-			if !ok || fld != flagField || base != flagBase {
+			if !ok {
+				c.notDecided("R3.charset-flag", construct, c.pos(fn.Pos()), "the NegotiateFlags emitted are "+b.flagsVal.Name()+", not directly a load of challenge.NegotiateFlags; their origin is not followed")
+			} else if fld != flagField || base != flagBase {
 				r.Fail("R3.charset-flag", construct, c.pos(fn.Pos()), "the NegotiateFlags emitted are not challenge.NegotiateFlags, the word whose UNICODE bit selected the character set")
 			} else {
 				r.OK("R3.charset-flag", construct, c.pos(fn.Pos()), fmt.Sprintf("character set selected by challenge.NegotiateFlags & NTLMSSP_NEGOTIATE_UNICODE (%d branches); the same field is emitted", viewT.tests+helperTests))
